@@ -1,4 +1,4 @@
-(* C09 - proofs over the queued protocol model Model/Proto2Queue.v (all pure layers, all repairs switches):
+(* C09 - proofs over the queued protocol model Model/Proto2Queue.v (all pure layers):
      - every queued run is a run of the protocol model: the invariants of Proofs/P2Phases.v hold in every queued world,
      - only controller ids that name a stored record can be enabled,
      - wake-up tokens: a pending id from which an id is reached through re-queue results; the fixed-point theorem
@@ -19,7 +19,6 @@ Section Queue.
           (touched : N -> V -> Ch -> V) (restore : V -> V -> V)
           (resync_payload : V -> list (option Req)) (doc_ok : V -> bool)
           (dev_apply : D -> Req -> D) (stamp : N -> Ch -> Ch) (v_empty : V) (d_empty : D) (ch_empty : Ch).
-  Context (fx : fixes).
 
   Notation world := (@world V Ch Req D).
   Notation eff := (@eff V Ch Req).
@@ -36,12 +35,11 @@ Section Queue.
                           touched restore resync_payload doc_ok dev_apply stamp v_empty d_empty ch_empty).
   Notation reach := (@reach V Ch Req D candidate candidate_rb rollback_of overlay commit_merge payload record_applied
                             touched restore resync_payload doc_ok dev_apply stamp v_empty d_empty ch_empty).
-  Notation qstep := (@qstep V Ch Req D fx candidate candidate_rb rollback_of overlay commit_merge payload record_applied
+  Notation qstep := (@qstep V Ch Req D candidate candidate_rb rollback_of overlay commit_merge payload record_applied
                             touched restore resync_payload doc_ok dev_apply stamp v_empty d_empty ch_empty).
-  Notation qreach := (@qreach V Ch Req D fx candidate candidate_rb rollback_of overlay commit_merge payload record_applied
+  Notation qreach := (@qreach V Ch Req D candidate candidate_rb rollback_of overlay commit_merge payload record_applied
                               touched restore resync_payload doc_ok dev_apply stamp v_empty d_empty ch_empty).
-  Notation apply_effs := (@apply_effs V Ch Req D fx dev_apply d_empty).
-  Notation fix_requeue := (@fix_requeue V Ch Req D fx).
+  Notation apply_effs := (@apply_effs V Ch Req D dev_apply d_empty).
   Notation J := (@J V Ch Req D).
 
   (** * Queued runs are runs of the protocol model *)
@@ -116,7 +114,7 @@ Section Queue.
   (* [c] hands over to [c'] in [w]: its reconcile writes nothing and asks for [c'] *)
   Definition hands_over (w : world) (c c' : ctrl) : Prop :=
     exists o, fst (reconcile o w c) = [] /\
-              In c' (requeue c (snd (reconcile o w c)) ++ fix_requeue w c (fst (reconcile o w c)) (snd (reconcile o w c))).
+              In c' (requeue c (snd (reconcile o w c))).
   Inductive leads_to (w : world) : ctrl -> ctrl -> Prop :=
   | lt_refl c : leads_to w c c
   | lt_step c c' c'' : hands_over w c c' -> leads_to w c' c'' -> leads_to w c c''.
@@ -202,7 +200,13 @@ Section Queue.
   Proof.
     unfold Proto2.rec_tx. destruct (txs w !! i) as [T|] eqn:HT; [|apply Forall_nil_2].
     destruct (t_apply T) as [a|] eqn:Ea.
-    { destruct a; try apply Forall_nil_2. apply phase_scan_forward; auto; [mp_start|intros _ p; mt_tac T|mt_tac T]. }
+    { destruct a; try apply Forall_nil_2.
+      destruct (scan_props w i _ (fun p => is_none (p_apply p))) as [[u|[t p]]|] eqn:Hscan.
+      - apply Forall_nil_2.
+      - apply scan_props_inr in Hscan. destruct Hscan as [Hp Hn]. apply Forall_cons_2; [|apply Forall_nil_2].
+        exists p. split; [exact Hp|]. unfold mp. cbn [p_init p_validate p_commit p_apply p_abort p_prev p_next set].
+        destruct (p_apply p); [discriminate|]. cbn. lia.
+      - apply phase_scan_forward; auto; [mp_start|intros _ p; mt_tac T|mt_tac T]. }
     destruct (t_abort T) as [ab|] eqn:Eb.
     { destruct ab; try apply Forall_nil_2. apply phase_scan_forward; auto; [mp_start|discriminate|mt_tac T]. }
     destruct (t_commit T) as [c|] eqn:Ec.
